@@ -4,83 +4,84 @@ import ast
 from rules import matchers, observers, stream
 from sa.deps import Facts, names_in, pseudo
 from sa.loader import AnalysisError, FuncInfo, own_nodes
-from sa.model import find_resloops, resloop_signature, row_loops, rowloop_signature, u, where
+from sa.model import find_resloops, resloop_signature, row_loops, rowloop_signature, stmts_after, u, where
 from sa.paths import CONTINUE, FALL, RAISE, Enumerator, path_nodes
 from sa.pattern import find_expr, find_stmt, has_expr, has_stmt, match_expr, match_stmt
+from sa.normalize import resolve_here
 
 SV = 'dataflows.base.schema_validator'
 
 
 def validator_loop(ctx):
     run, repo = ctx.run, ctx.repo
-    run.rule('VAL', 'VALIDATOR-LOOP: per row `okay` starts true; for every checked field the cast value is stored under the field\'s own '
-                    'name; only a CastError whose handler call on_error(name, row, index, error, field) answers false clears `okay`; '
-                    'the row object is yielded exactly when `okay` still holds')
-    sv = repo.func(SV + ':schema_validator')
-    outer = [n for n in own_nodes(sv.node) if isinstance(n, ast.For) and isinstance(n.iter, ast.Call) and u(n.iter.func) == 'enumerate'
-             and pseudo(n.iter.args[0]) == 'iterator']
+    run.rule('VAL', 'VALIDATOR-LOOP: per row the keep-flag starts true; for every checked field the cast value is stored under the '
+                    'field\'s own name; only a CastError whose handler call on_error(name, row, index, error, field) answers false '
+                    'clears the flag; the row object is yielded exactly when the flag still holds')
+    sv = ctx.N(repo.func(SV + ':schema_validator'))
+    it_param = sv.params[1]
+    outer = [n for n in own_nodes(sv.node) if isinstance(n, ast.For) and
+             match_expr('enumerate(%s)' % it_param, n.iter) is not None and isinstance(n.target, ast.Tuple) and len(n.target.elts) == 2]
     if len(outer) != 1:
         raise AnalysisError('schema_validator: row loop `for i, row in enumerate(iterator)` not found')
     outer = outer[0]
     idx, row = [t.id for t in outer.target.elts]
     inner = [n for n in ast.walk(outer) if isinstance(n, ast.For) and n is not outer]
     trys = [n for n in ast.walk(outer) if isinstance(n, ast.Try)]
-    ok = len(inner) == 1 and len(trys) == 1 and trys[0] in inner[0].body
-    run.check(ok, 'VAL', where(repo, outer), sv.qualname, 'for field in schema_fields: try: cast except CastError',
+    ok = len(inner) == 1 and len(trys) == 1 and trys[0] in inner[0].body and isinstance(inner[0].target, ast.Name)
+    run.check(ok, 'VAL', where(repo, outer), sv.qualname, 'for field in <checked fields>: try: cast except CastError',
               'the per-field cast loop is not inside the per-row loop')
     if not ok:
         return
     fld = inner[0].target.id
     t = trys[0]
-    # the cast store
-    stores = [s for s in t.body if isinstance(s, ast.Assign)]
-    want_t = '%s[%s.name]' % (row, fld)
-    ok = len(t.body) == 1 and len(stores) == 1 and u(stores[0].targets[0]) == want_t and \
-        u(stores[0].value) in ('%s.cast_value(%s.get(%s.name))' % (fld, row, fld), '%s.cast_value(%s[%s.name])' % (fld, row, fld))
-    run.check(ok, 'VAL', where(repo, t), sv.qualname, '%s = %s.cast_value(%s.get(%s.name))' % (want_t, fld, row, fld),
+    env = {'_row': row, '_f': fld}
+    ok = len(t.body) == 1 and (match_stmt('_row[_f.name] = _f.cast_value(_row.get(_f.name))', t.body[0], env) is not None or
+                               match_stmt('_row[_f.name] = _f.cast_value(_row[_f.name])', t.body[0], env) is not None)
+    run.check(ok, 'VAL', where(repo, t), sv.qualname, 'row[field.name] = field.cast_value(row.get(field.name))',
               'the cast value is not stored under the name of the field it was read from')
-    # handler
-    ok = len(t.handlers) == 1 and u(t.handlers[0].type) == 'CastError' and t.handlers[0].name and not t.orelse and not t.finalbody
+    ok = len(t.handlers) == 1 and t.handlers[0].type is not None and u(t.handlers[0].type) == 'CastError' and t.handlers[0].name \
+        and not t.orelse and not t.finalbody
     run.check(ok, 'VAL', where(repo, t), sv.qualname, 'except CastError as e', 'errors other than CastError are intercepted (or none)')
     if not ok:
         return
     hd = t.handlers[0]
     e = hd.name
-    clears = [n for n in ast.walk(outer) if isinstance(n, ast.Assign) and pseudo(n.targets[0]) == 'okay'
-              and isinstance(n.value, ast.Constant) and n.value.value is False]
-    sets = [n for n in outer.body if isinstance(n, ast.Assign) and pseudo(n.targets[0]) == 'okay'
-            and isinstance(n.value, ast.Constant) and n.value.value is True]
-    ok = len(clears) == 1 and len(sets) == 1 and outer.body.index(sets[0]) < outer.body.index(inner[0])
-    if ok:
-        c = clears[0]
-        cond = c._parent
-        ok = isinstance(cond, ast.If) and cond in hd.body and isinstance(cond.test, ast.UnaryOp) and \
-            isinstance(cond.test.op, ast.Not) and isinstance(cond.test.operand, ast.Call) and not cond.orelse and len(hd.body) == 1
-        if ok:
-            call = cond.test.operand
-            args = [u(a) for a in call.args]
-            ok = pseudo(call.func) == 'on_error' and len(args) == 5 and args[1:] == [row, idx, e, fld] and "['name']" in args[0]
-    run.check(ok, 'VAL', where(repo, hd), sv.qualname, 'if not on_error(resource[name], row, i, e, field): okay = False',
-              'the row is rejected (or kept) on a condition other than the handler\'s answer, or the handler does not receive '
-              '(name, row, index, error, field)')
-    # yield iff okay
-    tail = [s for s in outer.body if s not in (sets[0] if sets else None, inner[0])]
+    # the flag: the single name tested right before the yield
     ys = [y for y in ast.walk(outer) if isinstance(y, (ast.Yield, ast.YieldFrom))]
     ok = len(ys) == 1 and isinstance(ys[0], ast.Yield) and pseudo(ys[0].value) == row
+    flag = None
     if ok:
         st = ys[0]._parent._parent
-        ok = isinstance(st, ast.If) and pseudo(st.test) == 'okay' and st in outer.body and not st.orelse and \
+        ok = isinstance(st, ast.If) and isinstance(st.test, ast.Name) and st in outer.body and not st.orelse and \
             outer.body.index(st) > outer.body.index(inner[0])
-    run.check(ok, 'VAL', where(repo, outer), sv.qualname, 'if okay: yield row (after all fields)',
+        flag = st.test.id if ok else None
+    run.check(ok, 'VAL', where(repo, outer), sv.qualname, 'if <flag>: yield row (after all fields)',
               'rows are dropped / emitted on a condition other than "no handler said drop"')
+    if flag is None:
+        return
+    sets = [n for n in outer.body if match_stmt('%s = True' % flag, n) is not None]
+    clears = [n for n in ast.walk(outer) if isinstance(n, ast.Assign) and pseudo(n.targets[0]) == flag and n not in sets]
+    ok = len(sets) == 1 and outer.body.index(sets[0]) < outer.body.index(inner[0]) and len(clears) == 1 and \
+        match_stmt('%s = False' % flag, clears[0]) is not None
+    if ok:
+        cond = clears[0]._parent
+        test = resolve_here(cond.test) if isinstance(cond, ast.If) else None
+        ok = isinstance(cond, ast.If) and not cond.orelse and any(cond is x for h_ in [hd] for x in ast.walk(h_))
+        b = match_expr('not on_error(__NAME, _row, _i, _e, _f)', test, {'_row': row, '_i': idx, '_e': e, '_f': fld}) if ok else None
+        ok = b is not None and "['name']" in u(b['__NAME'])
+        # nothing else happens in the handler
+        other = [x for x in ast.walk(hd) if isinstance(x, (ast.Continue, ast.Break, ast.Return, ast.Raise))]
+        ok = ok and not other
+    run.check(ok, 'VAL', where(repo, hd), sv.qualname, 'if not on_error(resource[name], row, i, e, field): <flag> = False',
+              'the row is rejected (or kept) on a condition other than the handler\'s answer, or the handler does not receive '
+              '(name, row, index, error, field)')
     exits = [n for n in ast.walk(outer) if isinstance(n, (ast.Break, ast.Return, ast.Continue))]
     run.check(not exits, 'VAL', where(repo, outer), sv.qualname, 'no break/continue/return in the validator loop',
               'the validator leaves a row or the stream early')
-    # checked fields: default all, else those named
-    facts = Facts(sv, include_nested=False)
-    ok = has_stmt('if _fn is None:\n    _fn = [_f.name for _f in _s.fields]', sv.node) and \
-        has_stmt('_sf = [_f for _f in _s.fields if _f.name in _fn]', sv.node) and \
-        pseudo(inner[0].iter) in [b['_sf'] for _, b in find_stmt('_sf = [_f for _f in _s.fields if _f.name in _fn]', sv.node)]
+    fn = find_stmt('if _fn is None:\n    _fn = [_x.name for _x in _s.fields]', sv.node)
+    sf = find_stmt('_sf = [_x for _x in _s.fields if _x.name in _fn]', sv.node)
+    ok = len(fn) == 1 and len(sf) == 1 and sf[0][1]['_fn'] == fn[0][1]['_fn'] and pseudo(inner[0].iter) == sf[0][1]['_sf'] and \
+        fn[0][1]['_fn'] == sv.params[2]
     run.check(ok, 'VAL', sv.where, sv.qualname, 'checked fields = schema fields whose name is requested (default: all)',
               'the set of checked fields is not exactly the requested fields')
     ok = has_stmt('if on_error is None:\n    on_error = raise_exception', sv.node) and has_stmt('on_error = wrap_handler(on_error)', sv.node)
@@ -130,21 +131,20 @@ def policy_table(ctx):
               'clear does not null exactly the offending field')
     w = repo.func(SV + ':wrap_handler')
     inner = [f for f in repo.functions.values() if f.parent is w and not isinstance(f.node, ast.Lambda)]
-    ok = (has_expr('len(list(signature(_h).parameters)) > 4', w.node) or has_expr('len(signature(_h).parameters) > 4', w.node)
-          or has_expr('len(list(signature(_h).parameters)) >= 5', w.node) or has_expr('len(signature(_h).parameters) >= 5', w.node)) \
-        and len(inner) == 1 and len(inner[0].params) == 5
+    tests = [n for n in own_nodes(w.node) if isinstance(n, ast.If)]
+    ok = len(tests) == 1 and len(inner) == 1 and len(inner[0].params) == 5
     if ok:
+        t_ = resolve_here(tests[0].test)
+        pats = ['len(list(signature(_h).parameters)) > 4', 'len(signature(_h).parameters) > 4',
+                'len(list(signature(_h).parameters)) >= 5', 'len(signature(_h).parameters) >= 5']
+        ok = any(match_expr(p_, t_, {'_h': w.params[0]}) is not None for p_ in pats)
         r = [n for n in own_nodes(inner[0].node) if isinstance(n, ast.Return)]
-        ok = len(r) == 1 and isinstance(r[0].value, ast.Call) and pseudo(r[0].value.func) == 'on_error' and \
+        ok = ok and len(r) == 1 and isinstance(r[0].value, ast.Call) and pseudo(r[0].value.func) == w.params[0] and \
             [pseudo(a) for a in r[0].value.args] == inner[0].params[:4]
-        paths = Enumerator(where=w.qualname).paths(w.node.body)
-        for p in paths:
-            rets = [it.node for it in p.items if it.kind == 'return']
-            g = [pol for t, pol in p.guards() if '> 4' in u(t) or '>= 5' in u(t)]
-            if g and g[0]:
-                ok = ok and pseudo(rets[0].value) == 'on_error'
-            elif g:
-                ok = ok and pseudo(rets[0].value) == inner[0].name
+        rets_yes = [n for n in tests[0].body if isinstance(n, ast.Return)]
+        rets_no = [n for n in stmts_after(tests[0]) if isinstance(n, ast.Return)] + [n for n in tests[0].orelse if isinstance(n, ast.Return)]
+        ok = ok and len(rets_yes) == 1 and pseudo(rets_yes[0].value) == w.params[0] and len(rets_no) == 1 and \
+            pseudo(rets_no[0].value) == inner[0].name
     run.check(ok, 'POL', w.where, w.qualname, '5-parameter handlers passed through, shorter ones adapted in order',
               'custom handlers do not receive their arguments in the documented order')
 
@@ -211,29 +211,50 @@ def set_type_validate(ctx):
     vi = va.methods['__init__']
     run.check(has_stmt('self.on_error = wrap_handler(on_error)', vi.node) and has_stmt('if on_error is None:\n    on_error = raise_exception', vi.node), 'R20', vi.where,
               vi.qualname, 'default raise, wrapped once', 'validate does not default to raise / wrap the handler')
-    rv = repo.func('dataflows.processors.validate:validate.rows_validator.func')
-    loop = [n for n in own_nodes(rv.node) if isinstance(n, ast.For)][0]
+    va_cls = repo.cls('dataflows.processors.validate:validate')
+    rv_outer = va_cls.methods['rows_validator']
+    rvs = [f for f in repo.functions.values() if f.parent is rv_outer and f.is_generator]
+    if len(rvs) != 1:
+        raise AnalysisError('validate.rows_validator: inner generator not found')
+    rv = ctx.N(rvs[0])
+    loops = [n for n in own_nodes(rv.node) if isinstance(n, ast.For) and isinstance(n.target, ast.Tuple) and len(n.target.elts) == 2]
+    if len(loops) != 1:
+        raise AnalysisError('validate.rows_validator: row loop not found')
+    loop = loops[0]
     idx, var = [t.id for t in loop.target.elts]
     sigs = rowloop_signature(rv, loop, var)
-    okv = True
-    for s in sigs:
-        valid = [pol for t, pol in s.guards if isinstance(t, ast.Call) and pseudo(t.func) == 'row_validator']
-        handler = [(t, pol) for t, pol in s.guards if isinstance(t, ast.Call) and pseudo(t.func) == 'self.on_error']
-        kinds = [k for k, _ in s.yields]
-        if valid and valid[0]:
-            okv = okv and kinds == ['identity'] and not handler
-        elif handler:
-            t, pol = handler[0]
-            okv = okv and [u(a) for a in t.args] == ['res_name', var, idx, 'None', 'None']
-            okv = okv and ((kinds == ['identity']) == pol)
-        else:
-            okv = False
-    run.check(okv and len(sigs) == 3, 'R20', rv.where, rv.qualname,
+    from sa.model import truth_table
+
+    def atom(t):
+        if isinstance(t, ast.Call) and pseudo(t.func) == rv_outer.params[1] and [pseudo(a) for a in t.args] == [var]:
+            return 'VALID'
+        if isinstance(t, ast.Call) and pseudo(t.func) == 'self.on_error':
+            return 'KEEP'
+        return None
+    names, tt = truth_table(sigs, atom, lambda s_: tuple(k for k, _ in s_.yields))
+    want = {(True, True): ('identity',), (True, False): ('identity',), (False, True): ('identity',), (False, False): ()}
+    okv = set(names) == {'VALID', 'KEEP'}
+    for val, outs in tt.items():
+        d_ = dict(val)
+        okv = okv and outs == {want[(d_.get('VALID'), d_.get('KEEP'))]}
+    okv = okv and len(tt) == 4
+    # the handler gets (resource name, row, index, None, None) and is only consulted for invalid rows
+    hc = [c for c in ast.walk(loop) if isinstance(c, ast.Call) and pseudo(c.func) == 'self.on_error']
+    okv = okv and len(hc) == 1 and len(hc[0].args) == 5 and [u(a) for a in hc[0].args[1:]] == [var, idx, 'None', 'None'] and \
+        'name' in u(resolve_here(hc[0].args[0])) + u(hc[0].args[0])
+    run.check(okv, 'R20', rv.where, rv.qualname,
               'valid -> yield; invalid -> yield iff on_error(res_name, row, i, None, None)',
-              'custom validators do not keep valid rows and route invalid ones through the policy')
-    vs = repo.func('dataflows.processors.validate:validate.validate_with_schema.func')
-    run.check(has_expr('(yield from schema_validator(_r.res, _r, on_error=self.on_error))', vs.node), 'R20', vs.where, vs.qualname,
-              'schema_validator(res.res, res, on_error=self.on_error)', 'schema validation does not use the configured policy')
+              'custom validators do not keep valid rows and route invalid ones through the policy', detail=str(sorted(tt.items())))
+    vs_outer = va_cls.methods['validate_with_schema']
+    vss = [f for f in repo.functions.values() if f.parent is vs_outer and f.is_generator]
+    okvs = len(vss) == 1
+    if okvs:
+        vs = ctx.N(vss[0])
+        yf = [y for y in ast.walk(vs.node) if isinstance(y, ast.YieldFrom)]
+        okvs = len(yf) == 1 and match_expr('schema_validator(_r.res, _r, on_error=self.on_error)', resolve_here(yf[0].value),
+                                           {'_r': vs.params[0]}) is not None
+    run.check(okvs, 'R20', vs_outer.where, vs_outer.qualname,
+              'yield from schema_validator(res.res, res, on_error=self.on_error)', 'schema validation does not use the configured policy')
     frv = repo.func('dataflows.processors.validate:validate.row_validator.func')
     run.check(has_stmt('return field_validator(_row.get(field))', frv.node) or has_stmt('return field_validator(_row[field])', frv.node), 'R20', frv.where, frv.qualname,
               'field validator applied to row.get(field)', 'the field validator is applied to another value')
@@ -246,7 +267,8 @@ def check(ctx):
     set_type_validate(ctx)
     from rules import independence
     independence.r28_functions(ctx, [(SV + ':schema_validator', {}), ('dataflows.processors.set_type:set_type.transformer', {}),
-                                     ('dataflows.processors.validate:validate.rows_validator.func', {})])
+                                     ] + [(f.qualname, {}) for f in ctx.repo.functions.values()
+                                          if f.parent is ctx.repo.cls('dataflows.processors.validate:validate').methods['rows_validator'] and f.is_generator])
     matchers.r9_anchored(ctx, {'dataflows.processors.set_type'}, floor=1)
     funcs = [ctx.repo.cls('dataflows.processors.set_type:set_type').methods['process_datapackage']]
     stream.r7_guard_dominance(ctx, funcs)
